@@ -823,6 +823,19 @@ func (c *SpecCtx) evalCall(x *ECall) (Val, types.Type) {
 			c.fail("wrap: not an integer type")
 		}
 		return wrapTerm(tv, b), t
+	case "cur":
+		// cur(x): the current value of source variable x at this program point (in check-at clauses
+		// and postconditions a parameter name alone denotes its entry value)
+		id, ok := x.Args[0].(*EIdent)
+		if !ok || len(x.Args) != 1 {
+			c.fail("cur(name)")
+		}
+		if c.f != nil && c.hdrBlock != nil {
+			if v, t, ok := c.f.resolveLocal(id.Name, c); ok {
+				return v, t
+			}
+		}
+		return c.eval(id)
 	case "toint":
 		// toint(x): the Go conversion int(x) of a float value (same function the code's conversion uses)
 		v, t := c.eval(x.Args[0])
